@@ -43,7 +43,7 @@ ASSUMPTIONS = [
 ]
 
 POOL = [0, 1, 2, 0x7FFFFF, 0x800000, 0xFFFFFE, 0xFFFFFF]
-FAULTS = ["ignore_program", "mute_verify", "fail_once"]
+FAULTS = ["ignore_program", "mute_verify", "fail_once", "stuck"]     # stuck: the stored short address cannot be changed at all
 HARD_CAP = 400000
 
 
@@ -130,6 +130,9 @@ def prep_single(case):
             g.mute_verify = True
         if u.get("fault") == "fail_once":
             g.program_failures_left = 1
+        if u.get("fault") == "stuck":
+            g.ignore_program = True
+            g.ignore_set_short = True
         if u.get("state"):
             # left over from an earlier run that never reached its TERMINATE (abandoned, failed, interrupted)
             g.init_state = u["state"]
@@ -149,8 +152,10 @@ def prep_single(case):
         before if n <= 12 else str(before[:12]) + "...")
 
     def seq():
-        return call_commissioning(sequences.Commissioning, call, as_form(permitted, case.get("permitted_form", "list")),
-                                  readdress, dry)
+        arg = as_form(permitted, case.get("permitted_form", "list"))
+        # the caller's own collection (it may hand the same object to the run on its next line): not consumed or edited
+        bus.callers_collection = (arg, list(arg)) if isinstance(arg, (list, set, dict)) else None
+        return call_commissioning(sequences.Commissioning, call, arg, readdress, dry)
     return Job(case, units, bus, seq, where, cap)
 
 
@@ -182,6 +187,10 @@ def judge_single(job, oc):
                 raise e
             return [("C07:raised:%s@%s" % (type(e).__name__, library_frame(e.__traceback__)), "%s raised %r" % (where, e))]
     out = []
+    held = getattr(job.bus, "callers_collection", None)
+    if held is not None and list(held[0]) != held[1]:
+        out.append(("C07:callers-collection-changed", "%s: the %s handed over as available_addresses held %r, after the run it holds %r"
+                    % (where, type(held[0]).__name__, held[1], list(held[0]))))
     if faulty:
         if raised is None:
             out.append(("C07:missing-ProgramShortAddressFailure", "%s: unit %d (%s) was programmed and does not confirm its "
@@ -201,6 +210,17 @@ def judge_single(job, oc):
         return out
     part = [i for i in range(n) if readdress or before[i] is None]
     nonpart = [i for i in range(n) if i not in part]
+    # a participating unit whose stored address is stuck and which the run never got to program (it was not told to
+    # take an address: the pool was used up before it was found) still shows its old address; nothing the sequence
+    # could know - its leftover address is not counted as handed out
+    left = [i for i in part if case["units"][i].get("fault") == "stuck" and "program-matched" not in units[i].flags
+            and before[i] is not None and after[i] == before[i]]
+    after = [None if i in left else after[i] for i in range(n)]
+    n_init = len([1 for t in job.bus.trace if t[0] == 16 and (t[1] >> 8) == 0xA5])
+    if left and n_init > 1:
+        # ... and after a restart (random addresses clashed) only unaddressed units are taken back into the search:
+        # the unit with the stuck address has dropped out by its own fault
+        part = [i for i in part if i not in left]
     for i in nonpart:
         if after[i] != before[i]:
             out.append(("C07:nonparticipant-changed" + suffix, "%s: unit %d (not participating) went from %r to %r"
